@@ -110,3 +110,38 @@ def replay_row(rp):
     finally:
         import shutil
         shutil.rmtree(d, ignore_errors=True)
+
+
+def kani_rows_for_verus_property(unit, only=None, jobs=8):
+    """Run one Kani unit as part of a property whose main driver is vprop. Returns
+    (pre_violations, pre_undecided, extra_cov, extra_obligations)."""
+    pre_v, pre_u = [], []
+    cov = dict(unit=unit)
+    obl = dis = 0
+    cmd = ''
+    try:
+        res = kx.verify_unit(unit, only=only, jobs=jobs)
+    except kx.Undecided as e:
+        return pre_v, ['[%s] %s' % (unit, str(e)[:1200])], dict(kani_unit=cov), (0, 0, '')
+    except Exception as e:
+        return pre_v, ['[%s] kx failed: %s' % (unit, str(e)[:600])], dict(kani_unit=cov), (0, 0, '')
+    cmd = res['kani_cmd']
+    cov.update(rows=len(res['rows']), kani_wall_s=res['kani_wall_s'], solver_time_s=res['solver_time_s'], held=[], violated=[], undecided=[])
+    for row, e in res['per_row'].items():
+        n = e.get('nchecks') or 0
+        obl += n
+        if e['outcome'] == 'held':
+            dis += n
+            cov['held'].append(row)
+        elif e['outcome'] == 'violation':
+            cov['violated'].append(row)
+            dis += max(0, n - len(e.get('violations', [])))
+            cexs = [c for c in e.get('counterexamples', []) if c.get('replay_exit') == 1]
+            payload = dict(unit=unit, row=row, failed_clauses=e.get('violations'))
+            if cexs:
+                payload['failing_input'] = dict(kind='kani-row', unit=unit, row=row, operands=cexs[0]['operands'], replay_output=cexs[0]['replay_output'])
+            pre_v.append(('kani:%s:%s' % (unit, row), '%s :: %s :: %s' % (unit, row, '; '.join(e.get('violations', []))[:300]), payload, bool(cexs)))
+        else:
+            cov['undecided'].append(row)
+            pre_u.append('[%s] row %s: %s' % (unit, row, (e.get('why') or '')[:300]))
+    return pre_v, pre_u, dict(kani_unit=cov), (obl, dis, cmd)
